@@ -115,6 +115,18 @@ func (_this *Session) GetBuilderGeneratorForType(dstType reflect.Type) BuilderGe
 		return storedBuilderGenerator.(BuilderGenerator)
 	}
 
+	// If no builder can be made for this type (panic), take the placeholder out again and release anyone waiting
+	// on it, so that the next request fails the same way instead of blocking forever.
+	defer func() {
+		if builderGenerator == nil {
+			_this.builderGenerators.Delete(dstType)
+			builderGenerator = func(ctx *Context) Builder {
+				panic(fmt.Errorf("cannot build type %v", dstType))
+			}
+			wg.Done()
+		}
+	}()
+
 	builderGenerator = _this.defaultBuilderGeneratorForType(dstType)
 	wg.Done()
 	_this.builderGenerators.Store(dstType, builderGenerator)
